@@ -11,7 +11,7 @@ def is_anc(sp):
 def run(run, replay=None):
     run.assumptions += ["the tries are built by the real trie::Trie from the dictionary readings (random insertion orders); the "
                         "model uses the ideal key set, so a trie false negative shows up as a missing lattice node"]
-    run.regenerate(["Kkc", "Dic"])
+    run.regenerate(["Kkc", "Dic", "Server"])
     if run.build_props():
         run.audit()
     results, dis, cases = K.run_cases(run)
@@ -82,6 +82,42 @@ def run(run, replay=None):
                         if want not in texts:
                             fails.append(("missing-after-prefix", {"kind": "missing-after-prefix"},
                                           dict(c.describe(), context=ctx, expected_candidate=want, have=sorted(texts)[:10])))
+    # ---- the loaded dictionary extended at run time and at start-up (real server): a user word that shares its reading with
+    # words of the dictionary must not displace them — while the server runs, and after it restarted on the user.dic it wrote
+    import os
+    import shutil
+    from props import server_common as S
+    bindir = S.build_binaries(run)
+    if bindir is not None:
+        wd = S.workdir("c03")
+        dic = S.make_dictionary(bindir, wd)
+        ud = os.path.join(wd, "user")
+        srv = S.Server(bindir, dic, ud, workers=4, save_secs=1)
+        try:
+            if dic is not None and srv.wait_listening():
+                shared = [("さけ", ["酒", "鮭"], "避け"), ("やま", ["山"], "耶麻"), ("ほん", ["本"], "翻")]
+                for rd, builtin, new in shared:
+                    srv.rpc("RegisterWord", {"kind": "CommonNoun", "reading": rd, "word": new})
+                S.wait_until(lambda: (lambda d_: d_ is not None and len(d_["user_entries"]) >= len(shared))(srv.dump()), 4.0)
+
+                def offered(server, when):
+                    for rd, builtin, new in shared:
+                        got = S.texts(server.conv(rd, timeout=10.0)) or []
+                        stats["user_word_homophones_checked"] = stats.get("user_word_homophones_checked", 0) + 1
+                        for w_ in builtin + [new]:
+                            if w_ not in got:
+                                fails.append(("missing-head-word", {"kind": "missing-head-word", "phase": "user-word-shares-reading", "when": when},
+                                              {"input": rd, "missing": w_, "dictionary_words": builtin, "registered": new, "when": when, "candidates": got}))
+                offered(srv, "running")
+                p_ = os.path.join(ud, "user.dic")
+                S.wait_until(lambda: os.path.exists(p_) and all(n_ in open(p_, encoding="utf-8", errors="replace").read() for _, _, n_ in shared), 6.0)
+                srv.stop()
+                srv = S.Server(bindir, dic, ud, workers=4, save_secs=1)
+                if srv.wait_listening():
+                    offered(srv, "after-restart")
+        finally:
+            srv.stop()
+        shutil.rmtree(wd, ignore_errors=True)
     K.coverage(run, results, cases)
     run.cov["oracle_checks"] = stats
     K.report(run, "C03", fails, dis, "lattice/edges/candidates")
